@@ -233,10 +233,10 @@ func ruleSweeper(c *Check, rTable, rPrivate, rEffect, rCursor string) {
 	// R3: private DBIs only in non-native mode
 	sfn, sp := c.walkFn(rPrivate, fnSweep, WalkConfig{Memo: true,
 		KeepEvent: func(e *Event) bool {
-			return e.Kind == "ret" || e.Kind == "call" && strings.Contains(e.Callee, "lmdb.Env")
+			return e.Kind == "ret" || e.Kind == "call" && (strings.Contains(e.Callee, "lmdb.Env") || strings.HasSuffix(e.Callee, "lo.Filter"))
 		},
 		KeepAtom: func(a Atom) bool {
-			return strings.Contains(a.String(), "schemaTracksChanges") || strings.Contains(a.String(), "HasPrefix")
+			return strings.Contains(a.String(), "schemaTracksChanges") || strings.Contains(a.String(), "HasPrefix") || strings.Contains(a.String(), "lo.Filter@")
 		}})
 	if sp != nil {
 		nu, badp := 0, 0
@@ -246,6 +246,9 @@ func ruleSweeper(c *Check, rTable, rPrivate, rEffect, rCursor string) {
 				nu++
 				native, f1 := condTruth(p, "schemaTracksChanges", eventIndex(p, u))
 				priv, f2 := condTruth(p, "strings.HasPrefix(", eventIndex(p, u))
+				if !(f1 && native) && !(f2 && priv) && sweptNamesPreFiltered(c, p, eventIndex(p, u)) {
+					continue // the names were filtered by the same test before the loop
+				}
 				if !(f1 && native) && !(f2 && priv) {
 					badp++
 					c.Bad(rPrivate, fnSweep+"/private-only", "a DBI is swept on a path that has established neither native mode nor the private \"_sync\" prefix: application data without headers could be parsed and deleted", evPos(c, u), describe(c, p))
@@ -325,6 +328,74 @@ func ruleSweeper(c *Check, rTable, rPrivate, rEffect, rCursor string) {
 	if badl == 0 && nl > 0 {
 		c.Ok(rCursor, fnSweepTxn+"/cursor-updated", "every completed slice stores (last, limitReached) = ls.Cursor() unconditionally", pos)
 	}
+}
+
+// sweptNamesPreFiltered: the loop this path is in ranges over the result of
+// lo.Filter(names, pred) (library contract: exactly the elements for which
+// pred returns true, in order), and pred returns true only for names with the
+// private prefix or in native mode.
+func sweptNamesPreFiltered(c *Check, p *Path, before int) bool {
+	for _, fl := range callsOf(p, "github.com/samber/lo.Filter") {
+		if eventIndex(p, fl) > before || len(fl.Args) != 2 || !(strings.HasPrefix(fl.Args[1], "closure:") || strings.HasPrefix(fl.Args[1], "func:")) {
+			continue
+		}
+		ranged := false
+		for _, cd := range p.Conds() {
+			if strings.Contains(cd.Atom.String(), "len("+fl.Res+")") {
+				ranged = true
+			}
+		}
+		if !ranged {
+			continue
+		}
+		pred := c.P.Func(strings.TrimPrefix(strings.TrimPrefix(fl.Args[1], "closure:"), "func:"))
+		if pred == nil || len(pred.Params) == 0 {
+			continue
+		}
+		elem := "param:" + pred.Params[0].Name()
+		w := Walk(c.P, pred, WalkConfig{})
+		if w.Err != nil || len(w.Paths) == 0 {
+			continue
+		}
+		allowed := func(d string) bool {
+			d = strings.TrimSpace(d)
+			if strings.HasPrefix(d, "!") {
+				return false
+			}
+			return strings.Contains(d, "schemaTracksChanges") || d == "strings.HasPrefix("+elem+", const:\"_sync\")"
+		}
+		ok := true
+		for i := range w.Paths {
+			q := &w.Paths[i]
+			if q.End != "return" || len(q.Rets) != 1 {
+				ok = false
+				continue
+			}
+			r := q.Rets[0]
+			if r == "const:false" {
+				continue
+			}
+			native, f1 := condTruth(q, "schemaTracksChanges", -1)
+			priv, f2 := boolCond(q, "strings.HasPrefix("+elem+", const:\"_sync\")", -1)
+			if f1 && native || f2 && priv {
+				continue
+			}
+			// the result is the test itself: a disjunction of the two allowed tests
+			e := r
+			if strings.HasPrefix(e, "(") && strings.HasSuffix(e, ")") {
+				e = e[1 : len(e)-1]
+			}
+			for _, d := range strings.Split(e, " || ") {
+				if !allowed(d) {
+					ok = false
+				}
+			}
+		}
+		if ok {
+			return true
+		}
+	}
+	return false
 }
 
 // C13-R6 RESUME-EXACT: a slice of the sweep resumes where the previous one
